@@ -38,11 +38,34 @@ CLAIMED = {
              "(chain of tuples of optional elements) under TLC with the shape theorem as invariant; the real tree "
              "must equal the grammar's tree for every well-formed one.",
         note=TRUST, tech="TLC-enumerated token sequences + tree conformance", ref="5 C05"),
+    "C08": dict(
+        text="Eval.tla defines evaluation as a post-order, left-to-right walk threading (context, call log) that stops at "
+             "the first error; TLC enumerates all programs of up to three atoms (assignments, recording user functions, "
+             "failing sub-expressions) from three contexts, checks FirstErrorWins on the specification and emits the triple "
+             "(result, context afterwards, ordered call log) that the real crate must reproduce.",
+        note=TRUST, tech="TLC-enumerated programs against the TLA+ evaluator, comparing result + context + call log", ref="5 C08"),
+    "C09": dict(
+        text="The resolution rule is CallFunction in Eval.tla; MC_Resolve enumerates the complete finite configuration matrix "
+             "(51 names x context kinds x user function x variable x 5 call forms) with theorems (variables never influence "
+             "resolution, a context function is called exactly once with exactly the argument); MC_Ctx adds clone / "
+             "clear_functions / toggling histories. One recorded known finding (KF-2).",
+        note=TRUST, tech="TLC enumeration of the complete resolution matrix + conformance with recording functions", ref="5 C09"),
     "C10": dict(
         text="Builtins.tla is written from the README table; BuiltinAllowed gives the declarative outcome set (min/max = any "
              "extreme argument, undocumented cases open) and TLC checks that the deterministic semantics lies inside it; "
              "49 names x argument shapes of arity 0..4 over boundary pools are replayed bit-exactly.",
         note=TRUST, tech="TLC enumeration of builtin x argument shapes against the TLA+ builtin table", ref="5 C10"),
+    "C11": dict(
+        text="Immutable evaluation is defined by the same traversal with mode = imm; the property's projection is the theorem "
+             "ImmIsProjection (immutable result = mutable result unless an assignment operator is reached, context unchanged), "
+             "checked by TLC on every enumerated program x six contexts; paired immutable / mutable calls are replayed.",
+        note=TRUST, tech="TLC-checked projection theorem between the two evaluation modes + paired replay", ref="5 C11"),
+    "C12": dict(
+        text="Api.tla defines the 48 entry points as ProjectKind(kind, Core(mode, tree, state)); TLC enumerates programs of "
+             "every result type and error kind x contexts x all 48 entry points; expected-type errors are compared exactly. "
+             "For ill-formed and unspecified inputs the harness additionally checks that a precompilation error is returned "
+             "unchanged by every string-level entry point and that string level and tree level agree.",
+        note=TRUST, tech="TLC enumeration over the entry-point projection table + code-vs-code consistency", ref="5 C12"),
     "C13": dict(
         text="The classifier of Grammar.tla marks a sequence IF exactly when it is not derivable; for every IF "
              "sequence up to the bound the real crate must fail to precompile or produce an arity-deficient tree that "
